@@ -3,6 +3,7 @@ package main
 import (
 	"fmt"
 	"sort"
+	"strconv"
 	"strings"
 	"time"
 
@@ -83,10 +84,64 @@ func opsString(ops []wop) string {
 	return strings.Join(parts, " ")
 }
 
+// tsCarrier: how the timestamp of a generated row is carried (factory.go extractTimestamp accepts the whole numeric
+// family, numeric strings and time.Time, scaled by TIMEUNIT). The model always sees nanoseconds; unit > 1 means the
+// row holds ts/unit and the window is configured with that TimeUnit (timestamps of such a history are multiples of it).
+var tsCarrier = struct {
+	kind int   // 0 int64, 1 int, 2 float64, 3 decimal string, 4 time.Time
+	unit int64 // 1, 1e3, 1e6, 1e9
+}{0, 1}
+
+func carriedTs(ts int64) any {
+	v := ts / tsCarrier.unit
+	switch tsCarrier.kind {
+	case 1:
+		return int(v)
+	case 2:
+		return float64(v)
+	case 3:
+		return strconv.FormatInt(v, 10)
+	case 4:
+		return time.Unix(0, ts)
+	}
+	return v
+}
+
+// pickTsCarrier chooses the carrier of the next history: three out of four histories keep int64 nanoseconds.
+// It returns the factor by which the history and its configuration must be scaled, and whether far-future
+// timestamps may be generated (not when they would lose precision or overflow after scaling).
+func pickTsCarrier(rng *RNG) (unit int64, farOK bool) {
+	tsCarrier.kind, tsCarrier.unit = 0, 1
+	if rng.Intn(4) != 0 {
+		return 1, true
+	}
+	tsCarrier.kind = rng.Intn(5)
+	if tsCarrier.kind != 4 && rng.Intn(2) == 0 {
+		tsCarrier.unit = []int64{1000, 1000000, 1000000000}[rng.Intn(3)]
+	}
+	return tsCarrier.unit, tsCarrier.kind != 2 && tsCarrier.unit == 1
+}
+
+func resetTsCarrier() { tsCarrier.kind, tsCarrier.unit = 0, 1 }
+
+// scaleOps multiplies every timestamp of a history (timestamps of a scaled history are multiples of the unit)
+func scaleOps(ops []wop, unit int64) {
+	if unit == 1 {
+		return
+	}
+	for i := range ops {
+		ops[i].ts *= unit
+		scaleOps(ops[i].pre, unit)
+		for _, l := range ops[i].inj {
+			scaleOps(l, unit)
+		}
+	}
+}
+
 func mkWinRow(o wop, keyed bool) map[string]any {
 	m := map[string]any{"id": o.id}
 	if o.kind == 'A' {
-		m["ts"] = o.ts
+		m["ts"] = carriedTs(o.ts)
 	}
 	if keyed {
 		m["k"] = o.key
